@@ -35,6 +35,8 @@ def BYTES(lo, hi):
 
 
 class LineEval(SymEval):
+    inline_closures = True
+
     def __init__(self, model, func, texname):
         super().__init__(model, func)
         self.texname = texname
@@ -66,12 +68,29 @@ class LineEval(SymEval):
             x = self.as_int(self.ev(e.args[2], st), st)
             if x is not None:
                 return Int(NL(x) if f.attr == 'count' else RF(x))
+        if isinstance(f, ast.Attribute) and f.attr in ('count', 'rfind') and len(e.args) == 1 \
+                and T.is_const(e.args[0], '\n'):
+            v = self.ev(f.value, st)
+            d = getattr(v, 'desc', None)
+            if d and d[0] == 'slice' and d[3] == self.texname and d[1] == Aff.const(0):
+                return Int(NL(d[2]) if f.attr == 'count' else RF(d[2]))
         if isinstance(f, ast.Attribute) and f.attr == 'encode' and not e.args:
             v = self.ev(f.value, st)
             d = getattr(v, 'desc', None)
             if d and d[0] == 'slice' and d[3] == self.texname:
                 return Seq(BYTES(d[1], d[2]), 'bytes')
             return Seq(Aff.atom(('len', fresh('enc'))), 'bytes')
+        if isinstance(f, ast.Attribute) and f.attr == 'format' and isinstance(f.value, ast.Constant) \
+                and isinstance(f.value.value, str):
+            import re as _re
+            parts = _re.split(r'\{[^{}]*\}', f.value.value)
+            vals = [self.ev(a, st) for a in e.args]
+            for i, a in enumerate(e.args):
+                if i < len(parts) - 1:
+                    lab = _word_label(parts[i])
+                    if lab:
+                        self.rec(lab, self.as_int(vals[i], st), a, st)
+            return Seq(Aff.atom(('len', fresh('fmt'))), 'str')
         if isinstance(f, ast.Name) and f.id == 'str' and len(e.args) == 1:
             v = self.ev(e.args[0], st)
             a = self.as_int(v, st)
@@ -80,6 +99,19 @@ class LineEval(SymEval):
                 self.rec(label, a, e, st)
             return Seq(Aff.atom(('len', fresh('str'))), 'str')
         return super().ev_Call(e, st)
+
+    def ev_JoinedStr(self, e, st):
+        prev = ''
+        for v in e.values:
+            if isinstance(v, ast.Constant):
+                prev = v.value
+            elif isinstance(v, ast.FormattedValue):
+                val = self.ev(v.value, st)
+                lab = _word_label(prev)
+                if lab:
+                    self.rec(lab, self.as_int(val, st), v, st)
+                prev = ''
+        return Seq(Aff.atom(('len', fresh('fstr'))), 'str')
 
     def store(self, target, val, st):
         if isinstance(target, ast.Subscript) and isinstance(target.slice, ast.Constant) \
@@ -95,6 +127,15 @@ class LineEval(SymEval):
                 inner = self.as_int(self.ev(v.args[0], st), st)
                 self.rec(k.value, inner, v, st)
         return Obj(fresh('dict'))
+
+
+def _word_label(text):
+    s = (text or '').lower().rstrip()
+    if s.endswith('line'):
+        return 'line'
+    if s.endswith('column'):
+        return 'column'
+    return None
 
 
 def _label_before(call):
@@ -177,6 +218,23 @@ def ok1(model):
     return r
 
 
+def _stmt_of(n):
+    while not isinstance(n, ast.stmt):
+        n = n._parent
+    return n
+
+
+def sort_key_function(model):
+    """the function given as key= where run_proofreader_options sorts its result"""
+    f = model.func('shell.proofreader.run_proofreader_options')
+    for n in iter_scope(f.node):
+        if isinstance(n, ast.Call) and (T.call_name(n) in ('sort', 'sorted')):
+            for k in n.keywords:
+                if k.arg == 'key' and isinstance(k.value, ast.Name) and k.value.id in f.nested:
+                    return f.nested[k.value.id]
+    return None
+
+
 def _block(stmt):
     p = stmt._parent
     for field in ('body', 'orelse', 'finalbody'):
@@ -201,12 +259,16 @@ def ok2(model):
                 acc, accmap, acctxt = e[3].id, e[2].id, unparse(e[1])
     if acc is None:
         raise AnalysisError('anchor vanished: 4-tuple result of run_proofreader_options')
-    ext = [n for n in iter_scope(f.node) if isinstance(n, ast.AugAssign)
-           and isinstance(n.target, ast.Name) and n.target.id == acc]
+    ext = []
+    for n in iter_scope(f.node):
+        if isinstance(n, ast.AugAssign) and isinstance(n.target, ast.Name) and n.target.id == acc:
+            ext.append((_stmt_of(n), n.value))
+        elif isinstance(n, ast.Call) and isinstance(n.func, ast.Attribute) and n.func.attr == 'extend' \
+                and isinstance(n.func.value, ast.Name) and n.func.value.id == acc and n.args:
+            ext.append((_stmt_of(n), n.args[0]))
     if not ext:
         raise AnalysisError('anchor vanished: accumulation of matches')
-    for n in ext:
-        src = n.value
+    for n, src in ext:
         if not isinstance(src, ast.Name):
             r.fail(n, 'matches are accumulated from an expression, not from the shifted list')
             continue
@@ -244,12 +306,14 @@ def ok2(model):
             r.ok(loop, 'every match of the part passes the shift loop before accumulation',
                  nontrivial=True)
         # the accumulators of text and map are extended after the shift
-        later_ext = [s for s in blk[k + 1:] for x in ast.walk(s)
-                     if isinstance(x, ast.AugAssign) and isinstance(x.target, ast.Name)
-                     and x.target.id == accmap]
-        early_ext = [s for s in blk[:k] for x in ast.walk(s)
-                     if isinstance(x, ast.AugAssign) and isinstance(x.target, ast.Name)
-                     and x.target.id in (accmap, acctxt)]
+        def _extends(x, names):
+            if isinstance(x, ast.AugAssign) and isinstance(x.target, ast.Name) and x.target.id in names:
+                return True
+            return isinstance(x, ast.Call) and isinstance(x.func, ast.Attribute) \
+                and x.func.attr in ('extend', 'append') and isinstance(x.func.value, ast.Name) \
+                and x.func.value.id in names
+        later_ext = [s for s in blk[k + 1:] for x in ast.walk(s) if _extends(x, (accmap,))]
+        early_ext = [s for s in blk[:k] for x in ast.walk(s) if _extends(x, (accmap, acctxt))]
         if later_ext and not early_ext:
             r.ok(store, 'text and map of the part are appended after the shift', nontrivial=True)
         else:
@@ -260,9 +324,20 @@ def ok2(model):
         amount_ok = False
         if isinstance(v, ast.BinOp) and isinstance(v.op, ast.Add):
             for a, b in ((v.left, v.right), (v.right, v.left)):
-                if isinstance(a, ast.Call) and _is_json_get(model, a) and isinstance(b, ast.Call) \
-                        and getattr(b.func, 'id', '') == 'len' and unparse(b.args[0]) in (acctxt, accmap):
-                    amount_ok = True
+                bs = T.resolve_local(model, b) if isinstance(b, ast.Name) else [b]
+                if isinstance(a, ast.Call) and _is_json_get(model, a) and bs and all(
+                        isinstance(x, ast.Call) and getattr(x.func, 'id', '') == 'len'
+                        and unparse(x.args[0]) in (acctxt, accmap) for x in bs):
+                    # a hoisted len() must be taken before the part is appended
+                    if isinstance(b, ast.Name):
+                        hoist = [d for d in iter_scope(f.node) if isinstance(d, ast.Assign)
+                                 and any(isinstance(t, ast.Name) and t.id == b.id for t in d.targets)]
+                        if hoist and _block(hoist[0]) is blk and blk.index(hoist[0]) < i \
+                                and not any(_extends(x, (accmap, acctxt)) for s2 in blk[blk.index(hoist[0]):k]
+                                            for x in ast.walk(s2)):
+                            amount_ok = True
+                    else:
+                        amount_ok = True
         if amount_ok:
             r.ok(store, 'shift = part offset + len(%s)' % acctxt, nontrivial=True)
         else:
@@ -287,8 +362,7 @@ def ok2(model):
                    witness='a match inside a \\footnote (moved to the end of the plain text) '
                            'followed by a later match')
     # sort key: abs(map[offset])
-    kf = model.func('shell.proofreader.run_proofreader_options.f') if model.has_func(
-        'shell.proofreader.run_proofreader_options.f') else None
+    kf = sort_key_function(model)
     if kf is not None:
         rets2 = T.func_returns(kf)
         if rets2 and all(isinstance(x, ast.Call) and getattr(x.func, 'id', '') == 'abs'
